@@ -61,6 +61,7 @@ func runHistory(t *testing.T, r *vrep.Report, id int, cfg histCfg) {
 			return
 		}
 		h.rd = append(h.rd, c)
+		h.rewriters = append(h.rewriters, installRewriter(c, cfg.seed, 25))
 	}
 	// initial layout
 	for _, p := range splitPoints {
@@ -183,6 +184,7 @@ func runHistory(t *testing.T, r *vrep.Report, id int, cfg histCfg) {
 		h.judge(o, judged)
 	}
 	h.judgeOutcomes(truth)
+	h.countRewrites()
 	r.Count("async_gate:missing-lock-answer-first", int(h.gates.missingFirst.Load()))
 	r.Count("async_gate:present-lock-answers-first", int(h.gates.presentFirst.Load()))
 	r.Count("async_gate:other-answer-never-came", int(h.gates.timeouts.Load()))
@@ -353,6 +355,9 @@ func TestVerifC05(t *testing.T) {
 		r.Floor("txn_fate:"+fAsyncLeft.String(), 5)
 		r.Floor("async_gate:missing-lock-answer-first", 3)
 		r.Floor("async_gate:present-lock-answers-first", 3)
+		r.Floor("response_level_lock_error:batchget", 100)
+		r.Floor("response_level_lock_error:batchget-with-several-keys", 50)
+		r.Floor("response_level_lock_error:scan", 100)
 		r.Floor("early:histories", 80)
 		r.Floor("early:state:"+stateNames[stOrphanPess], 15)
 		r.Floor("early:state:"+stateNames[stPessOnly], 8)
